@@ -592,6 +592,20 @@ def run_bumps(tier="quick", seed=0):
             if r1[0] != r2[0] or r1[1] != r2[1]:
                 bad("index-addressed", f"`zerv … {' '.join(by_index)}` gives status {r1[0]} {r1[1].decode('utf-8', 'replace').strip()!r} "
                                        f"({r1[2].decode('utf-8', 'replace').strip()[:120]!r}); the by-name flag `{' '.join(by_name)}` gives status {r2[0]} {r2[1].decode('utf-8', 'replace').strip()!r}")
+        # "invalid targets (out of range, …) are rejected without output": indices at and just beyond both ends of each section
+        # (core has 3 components, extra-core 4, build none in this schema)
+        for sec, n in (("core", 3), ("extra-core", 4), ("build", 0)):
+            outs = [str(n), str(n + 1), f"=-{n + 1}", f"~{n + 1}", f"{n}=7", f"~{n + 1}=7", "~0", "=-0" if n == 0 else f"=-{n + 2}"]
+            for o in outs:
+                for flag in (f"--bump-{sec}", f"--{sec}"):
+                    if flag == f"--{sec}" and "=" not in o.lstrip("="):
+                        continue    # an override needs index=value
+                    arg = [flag + o] if o.startswith("=") else [flag, o]
+                    res["cases"] += 1
+                    r1 = _run(zerv, base + arg, None, work, env)
+                    if r1[0] == 0 or r1[1].strip():
+                        bad("index-out-of-range-accepted", f"`zerv … {' '.join(arg)}` (section of {n} components) gives status {r1[0]} and prints "
+                                                           f"{r1[1].decode('utf-8', 'replace').strip()!r}; an out-of-range index must be rejected without output")
     finally:
         shutil.rmtree(work, ignore_errors=True)
     res["wall_s"] = round(time.time() - t0, 2)
